@@ -811,8 +811,10 @@ def byte_at(I, st, ln):
     a = st.atoms.get(('byteat', fk))
     if a not in st.bounds and a not in st.subst:
         st._jset('bounds', a, (0, 255))
-        for v in (st.ghost.get('byte_excl') or {}).get(fk, ()):
-            st.assume(padd(patom(a), pconst(v), -1), NONZERO)
+        for k_, vs in (st.ghost.get('byte_excl') or {}).items():
+            if k_ == fk or pfreeze(st.norm(pthaw(k_))) == fk:
+                for v in vs:
+                    st.assume(padd(patom(a), pconst(v), -1), NONZERO)
     b = Int('u8', 0, 255, patom(a))
     st.pframes[key] = Frame(None, None, {0: b})
     return Ref(key, 0, ())
